@@ -35,6 +35,8 @@ def attribute(run, line, verdict):
             # a second start after revive belongs to the life cycle
             revived = {e["u"] for e in upto if e.get("e") == "Revive"}
             return "C12" if ev.get("u") in revived and k == "Start" else "C01"
+        if k == "FreeRej":
+            return "C03"
         if k in ("JoinRet", "FreeRet", "JoinCall", "FreeCall"):
             if ev.get("u") in cancelled:
                 return "C12+C03"  # a cancelled target must still release its joiner
